@@ -124,6 +124,8 @@ def gen_case(rng, name, tier, k):
     rec = dict(config=name, mode=mode, ymode=ymode, nyO=nyO, nyH=nyH, equal=equal, y0=rng.randint(1950, 1990),
                np_seed=rng.randint(0, 2**31 - 1), short=(not windowed and not large and rng.random() < 0.3), sigma_bias=sigma_bias,
                sd_ratio=rng.choice([0.5, 1.0, 1.5, 2.0]))
+    if name in PR_LIKE and k % 2 == 0:
+        rec["flux"] = K.FLUX[(k // 2) % len(K.FLUX)]  # pr in kg m-2 s-1: magnitudes 1e-5 ... 1e-9
     return rec
 
 
@@ -141,6 +143,8 @@ def build(rec):
         obs = K.pr_series(nprs, dO, 3.0, floor=0.01)
         # multiplicative bias: factor exp(sigma_bias / 4) in [~0.08, ~12]
         H = K.pr_series(nprs, dH, 3.0 * float(np.exp(rec["sigma_bias"] / 4.0)), floor=0.01)
+        if rec.get("flux"):
+            obs, H = obs * rec["flux"], H * rec["flux"]
         sigma = float(np.std(obs))
     else:
         sigma = 3.0
@@ -172,7 +176,7 @@ def run_sequence(rec):
     obs0, H0 = obs.copy(), H.copy()
     names = ["LS-multiplicative", "DC-multiplicative", "LS-multiplicative"] if rec["kind"] == "pr" else \
         ["LS-additive", "QM-parametric", "ECDFM", "DC-additive", "LS-additive"]
-    scale = float(max(1.0, np.max(np.abs(obs0)), np.max(np.abs(H0))))
+    scale = float(max(np.max(np.abs(obs0)), np.max(np.abs(H0))))
     tol = 1e-8 * scale
     bias = float(np.mean(H0) - np.mean(obs0))
     info = {"n_obs": int(obs.size), "n_hist": int(H.size), "clause": "exact, consecutive calls on the same arrays", "bias": bias}
@@ -203,7 +207,7 @@ def run_case(rec):
     mode = tuple(rec["mode"]) if rec["mode"] else None
     ymode = tuple(rec["ymode"]) if rec["ymode"] else None
     deb = make(name, mode, ymode)
-    scale = float(max(1.0, np.max(np.abs(obs)), np.max(np.abs(H))))
+    scale = float(max(np.max(np.abs(obs)), np.max(np.abs(H))))  # relative to the data (pr fluxes are ~1e-6)
     tol = 1e-8 * scale
     with warnings.catch_warnings(), np.errstate(all="ignore"):
         warnings.simplefilter("ignore")
@@ -258,7 +262,7 @@ def run_case(rec):
         if name in PARAM_SPREAD and min(obs.size, H.size) >= 3:
             sd_o, sd_out = float(np.std(obs)), float(np.std(out))
             info["spread"] = (sd_o, sd_out)
-            if abs(sd_out - sd_o) > 1e-7 * max(1.0, sd_o):
+            if abs(sd_out - sd_o) > 1e-7 * max(1.0, sd_o):  # tas-like data only (K)
                 return f"{where}: standard deviation of the output {sd_out:.6g} != observed {sd_o:.6g} (calibrated spread not reproduced)", info
         return None, info
     # ---- the loose clause: at most a small fraction of the original bias (only on samples of >= 200 values per window)
@@ -347,6 +351,11 @@ def run(tier, res, force_search=False, measure=False):
     res.extra["oracle"] = {"cases": n_or, "by_clause": clauses, "worst_residual_over_bias_in_loose_clause": worst_ratio,
                            "tolerance_exact": "1e-8*max(1,|values|)"}
 
+    # the public `apply` on small grids with any input dtype, and one parallel run on a 2 x 3 grid
+    par = dict(config="apply/LS-additive", prop=PROP, debiaser="LS-additive", dtypes=["float64", "float64", "float64"], shape=[2, 3],
+               n=rng.randint(100, 400), np_seed=rng.randint(0, 2**31 - 1), shift=rng.choice([-6.0, 2.0, 10.0]), parallel=True)
+    K.apply_cases(rng, tier, res, problems, PROP, extra=[par])
+
     seen = set()
     for p, rec in problems:
         key = rec["config"]
@@ -365,6 +374,9 @@ def replay(data):
     if not rec:
         print("replay: no failing input recorded (broken tie):", data.get("broken"))
         return 1
-    p, info = run_case(rec)
+    if str(rec.get("config", "")).startswith("apply/"):
+        p, info = K.run_apply_case(rec)
+    else:
+        p, info = run_case(rec)
     print("replay", rec["config"], "->", p or "property holds on this input", info)
     return 1 if p else 0
